@@ -7,6 +7,16 @@ props = [json.loads(l) for l in open(os.path.join(HERE, "properties.jsonl"))]
 
 # id -> (level, technique, level text, level note, design ref)
 CLAIMS = {
+    "C13": ("model_checking",
+            "PlusCal/TLA+ goroutine model of Run's cancellation hand-off (TLC: safety + liveness, negative variant) + -race stress with goroutine accounting + hook-gated promptness + TLC validation of cancelled Run events",
+            "TLC exhaustively checks RunCancel.tla (every interleaving of caller, watcher and runner) for the safety and "
+            "liveness properties behind the statement, and that removing the deferred cancel() is caught. The real Run is "
+            "stressed in a -race build over program kinds x cancellation instants with checks of the returned error, a 2 s "
+            "bound, the Step-boundary state (twin + TLC Boundaries), goroutines back to the baseline before the caller's "
+            "context is released, and - through the verif hooks - return at the end of the Step in which the flag became visible.",
+            "Races and leaks are observed by the Go runtime on the produced executions; timing bounds are generous. If a "
+            "refactoring removes the hooks the hook tier reports 'not applicable' and the black-box tier alone decides.",
+            "DESIGN.md section 3 C13"),
     "C10": ("model_checking",
             "snapshot/rebuild at every Step boundary with TLC carrying the state + bit-identical twin + parallel CPUs under the Go race detector, every trace validated by TLC",
             "Programs of all instruction classes are stepped while the CPU object is rebuilt from copies of States, memory and "
